@@ -343,7 +343,16 @@ theorem out_count {m c : String} {s : CtorSpec} (h : (m, c, s) ∈ table)
        simpa [outCount, seqMapSpec] using (by assumption))
     | (simp at hacc)
 
-/-! ## `bad_callbacks_typeerror` -/
+/-! ## `bad_callbacks_typeerror`
+
+Remark (ambient settings). `subgraphCall` and `construct` take no settings parameter: the verdict on
+a callback and its result is a function of the operands, the spec and the callback alone. In the code
+this means that neither `operator_overloading` (constant / type promotion), nor `value_prop_backend`,
+nor `type_warning_level` in force at the call may change what `subgraph` accepts — a scalar in a
+result is a TypeError inside an `operator_overloading` block too. Tie: every run repeats the cases,
+the malformed ones systematically, inside each scoped setting and compares with this same model.
+Likewise `args_prescribed_*` are unbounded in the number of operands; the tie exercises lists of
+9–14 pairwise differently typed operands so that argument *i* is seen to be typed for position *i*. -/
 
 /-- **Malformed callbacks.** For any constructor whose type expressions evaluate: if every callback
     either returns an iterable of Vars or is malformed (not callable / non-iterable result / result
